@@ -287,3 +287,21 @@ CONTRACTS.append(Contract(
             'ConnectionError': Raises(post=[('what-is-left-in-the-lists-is-what-was-not-deleted', f'{TOTAL} == old({TOTAL}) - {DELETED}')]),
             'ValueError': Raises(post=[('nothing-changed', f'{TOTAL} == old({TOTAL}) and {DELETED} == 0')])},
 ))
+
+
+# ---- further contracts of this property live in the sibling file C18_mgr.py (same conventions)
+import importlib.util as _ilu_C18_mgr
+import os as _os_C18_mgr
+import sys as _sys_C18_mgr
+_p_C18_mgr = _os_C18_mgr.path.join(_os_C18_mgr.path.dirname(_os_C18_mgr.path.abspath(__file__)), 'C18_mgr.py')
+if _os_C18_mgr.path.exists(_p_C18_mgr):
+    _s_C18_mgr = _ilu_C18_mgr.spec_from_file_location('contracts_C18_mgr', _p_C18_mgr)
+    _m_C18_mgr = _ilu_C18_mgr.module_from_spec(_s_C18_mgr)
+    _sys_C18_mgr.modules['contracts_C18_mgr'] = _m_C18_mgr
+    _sys_C18_mgr.modules.setdefault('contracts_C18', _sys_C18_mgr.modules.get('contracts_C18') or _sys_C18_mgr.modules[__name__])
+    _s_C18_mgr.loader.exec_module(_m_C18_mgr)
+    CONTRACTS.extend(_m_C18_mgr.CONTRACTS)
+    CLASS_SPECS = dict(globals().get('CLASS_SPECS', {}))
+    for _k, _v in getattr(_m_C18_mgr, 'CLASS_SPECS', {}).items():
+        CLASS_SPECS.setdefault(_k, {}).update(_v)
+    LEMMAS = list(globals().get('LEMMAS', [])) + list(getattr(_m_C18_mgr, 'LEMMAS', []))
